@@ -24,6 +24,13 @@ func inlineTypesSmall(p *Program) func(f *ssa.Function, d int) bool {
 	tp := p.SSAPkg("types")
 	th := typesHelpers(p)
 	return func(f *ssa.Function, d int) bool {
+		// a pre-filter written as a function (a scanner with loops instead of a regular expression) is a
+		// predicate of the text like MatchString: it stays an atom, both outcomes are explored
+		if f.Parent() == nil && f.Pkg == tp {
+			if res := f.Signature.Results(); res.Len() == 1 && isBoolType(res.At(0).Type()) && !simplePredicate(f) && len(f.Blocks) > 2 {
+				return false
+			}
+		}
 		return f.Parent() != nil || (f.Pkg == tp && len(f.Blocks) <= 2) || th(f, d)
 	}
 }
